@@ -1,7 +1,7 @@
 #!/bin/bash
 # usage: run_benign.sh <dir with patch.diff> <label>   Applies a behaviour-preserving change to /repo, runs every quick check,
 # reverts. Any VIOLATION / non-zero exit is a false alarm (or the change is not behaviour-preserving after all).
-D=$1; L=$2
+D=$(cd "$1" && pwd); L=$2
 cd /verif
 if ! git -C /repo diff --quiet; then echo "/repo dirty"; exit 2; fi
 if ! git -C /repo apply $D/patch.diff; then echo "$L: patch does not apply"; exit 3; fi
